@@ -135,7 +135,8 @@ def c01(ctx):
 @prop("C02", "C01Trace",
       "Laws are checked by TLC on the spec for all triples up to the bound, and on the signs logged from the "
       "real Compare for seeded near-equal triples; sort.Sort(version.Slice) results are checked for bag "
-      "equality and order under the spec.")
+      "equality and order under the spec. "
+      "Upstream parts containing '-' and ':' go through the same rows; the whole vector list is executed a second time in a fresh process in reverse order.")
 def c02(ctx):
     t = ctx.tier
     mc(ctx, "DebVersionLaws.tla", "DebVersionLaws_triples_%s.cfg" % t, what="reflexive, transitive, congruent")
@@ -235,7 +236,8 @@ def c15(ctx):
       "TLC enumerates package shapes: all 6x6 control/data compression pairs, control-tar layouts (./control first, "
       "middle, last, bare 'control', './x/../control'), 0-3 data files, extra members, debian-binary texts (2.0, 2.1, "
       "3.0, 1.0, no newline, empty, trailing junk), missing members, member orders, ambiguous candidates; the harness "
-      "builds each as a real .deb (tar, gzip/xz/bzip2/lzma/zstd, ar) and every load is judged against the shape.")
+      "builds each as a real .deb (tar, gzip/xz/bzip2/lzma/zstd, ar) and every load is judged against the shape. "
+      "Also 2 MiB single-byte payloads under every encoding, two loads of the same bytes open at once, and 576 operation sequences over 5 handles of 3 signed packages (load, read, check, close once/twice/never, every order for two open packages).")
 def c14(ctx):
     t = ctx.tier
     mc(ctx, "DebLoadMC.tla", "DebLoadMC_%s.cfg" % t, what="loader machine: outcome is a function of the shape")
@@ -252,7 +254,8 @@ def c14(ctx):
       "order/subset, decoy control/data members before/after covered or not by the signature, and a byte flipped in "
       "each of the four members at seven relative positions; the harness signs with real OpenPGP keys; plus every "
       "byte position (stride-sampled in quick) of the signed members and the signature flipped. Each case is loaded "
-      "and checked repeatedly.")
+      "and checked repeatedly. "
+      "Also repeated CheckDebsig calls with other keyrings on one loaded package and the 576 package lifecycle sequences of C14.")
 def c16(ctx):
     t = ctx.tier
     mc(ctx, "DebLoadMC.tla", "DebLoadMC_%s.cfg" % t, what="debsig machine: verified members = loaded members")
@@ -283,7 +286,8 @@ def c04(ctx):
 @prop("C05", "C04Trace",
       "Every accepted input of the C04 domain, seeded mutations and raw byte strings are rendered with String()/"
       "MarshalControl and re-parsed by the real parser and by the reference parser; all 584 architecture names "
-      "built from {any, all, linux, kfreebsd, gnu, musl, amd64, i386} in 1-, 2- and 3-part form plus real names.")
+      "built from {any, all, linux, kfreebsd, gnu, musl, amd64, i386} in 1-, 2- and 3-part form plus real names. "
+      "Also 256 four-part names and names with empty components ('--', '-amd64', 'any--amd64').")
 def c05(ctx):
     t = ctx.tier
     mc(ctx, "DepLaws.tla", "DepLaws_%s.cfg" % t, what="reference renderer/parser consistent")
@@ -329,7 +333,8 @@ def c17(ctx):
       "reachable state is a crash state / a watcher's view) and enumerates the scenarios: operation x .dsc/.changes x "
       "0..N listed files x failure {missing source, source is a directory (fails after the destination was created), "
       "destination occupied, failpoint after the data was written} at each listed file and at the control file, and "
-      "listed names '../x', absolute, 'sub/x'. Each scenario runs on a real temporary tree observed with raw inotify.")
+      "listed names '../x', absolute, 'sub/x'. Each scenario runs on a real temporary tree observed with raw inotify. "
+      "Also stale destination files, control files with partial lists, and every valid sequence of 2-3 operations {copy a, copy b, move a, move b, remove} on ONE handle with all directories snapshotted after every step.")
 def c20(ctx):
     t = ctx.tier
     mc(ctx, "Upload.tla", "Upload_%s.cfg" % t, what="ControlLast, ErrorMeansAbsent, RemoveLast, SuccessPost, Confined in every state")
@@ -347,7 +352,8 @@ def c20(ctx):
       "x read-buffer sequences x stream lengths for readers (singular and plural constructors), and verifier scenarios: "
       "entry source {Checksums-Sha256 of a .dsc, best-checksum selector for sha256/sha512, FileHashFromHasher for all four} "
       "x recorded hash {equal, upper-case, unequal, truncated odd/even, digest of empty content, digest under each other "
-      "algorithm} x content length x chunking; plus seeded streams up to 3 MiB.")
+      "algorithm} x content length x chunking; plus seeded streams up to 3 MiB. "
+      "Also sources that deliver data together with EOF, and sequences of verifiers for one entry (rejected stream, then the recorded stream).")
 def c12(ctx):
     t = ctx.tier
     mc(ctx, "HashIOMC.tla", "HashIOMC_%s.cfg" % t, what="ideal-digest plumbing: pass-through, sizes, sums, verifier iff")
@@ -365,7 +371,8 @@ def c12(ctx):
       "canon-preserved x signature intact x signer x keyring in {nil, empty, k1, k2, both} x foreign text before/after) "
       "and generates documents x signing key x keyring x structural mutations (splices before / inside / after, second "
       "block, dropped signature, relative-position edits); the harness signs with real OpenPGP keys and adds single-byte "
-      "substitution, deletion, insertion and truncation at (stride-sampled / every) byte position of the armored file.")
+      "substitution, deletion, insertion and truncation at (stride-sampled / every) byte position of the armored file. "
+      "Also keyring sequences on one document, and 36 operation sequences over three ParagraphReaders alive in one process (a drained reader polled again, two readers open at once in three interleavings) judged step by step against the per-reader abstract state.")
 def c11(ctx):
     mc(ctx, "Clearsign.tla", "Clearsign.cfg", what="signer => verified; accepted => verified block only; nothing after the block")
     g1 = gen(ctx, "ClearsignGen.tla", "ClearsignGen.cfg", ctx.path("cs.ndjson"), what="documents x keys x keyrings x mutations")
@@ -398,7 +405,9 @@ def c19(ctx):
       "bool; lists with delimiters/strip incl. required and int lists; version, dependency, arch, arch list, checksum list; "
       "embedded Paragraph). TLC enumerates all values over small per-field domains (835 values), all interleavings of known "
       "and unknown fields (single-line, multi-line, empty) for the pass-through law, and documents with/without required "
-      "fields; the probe types' reflected descriptors are checked against the specification's table.")
+      "fields; the probe types' reflected descriptors are checked against the specification's table. Every value is also "
+      "decoded twice into one struct, and every value is decoded into a struct that holds a fully populated other value "
+      "(one receiver, two documents); the list is run again in reverse order in a fresh process.")
 def c09(ctx):
     g1 = gen(ctx, "StructGen.tla", "StructGen.cfg", ctx.path("st.ndjson"), what="probe values, documents")
     judge(ctx, "C09", g1, what="Marshal/Unmarshal vs descriptor algebra", reverse=True)
